@@ -151,6 +151,34 @@ chk("C08", "model_checking",
     "trace-validated by TLC", "DESIGN.md section 4, C08")
 
 
+chk("C07", "model_checking",
+    "Programs carry a marker statement between the statements of every block; the real VM runs them with hook H2 "
+    "recording (frame depth, function, ip, opcode, sp) before every instruction; spec/VMTrace.tla validates every "
+    "trace: all statement boundaries of a block within one activation see the same sp, every backward jump to a loop "
+    "head arrives with the same sp, a normal end has sp = 0. Families: seeded random programs, all loop nests with "
+    "plain / labelled break / continue at every position, break / continue / return in 19 operand positions x while / "
+    "loop, long runs (thorough 10^4 iterations, sparse tracing); end to end 10^5-iteration loops never report a "
+    "stack overflow.",
+    "The per-instruction effect table only localises a leak (drift), the three trace rules are the verdict. Open "
+    "known findings: break / continue taken inside an expression in operand position (18 signatures).",
+    "TLA+ trace specification of the VM's stack discipline; recorded instruction traces of the real VM validated "
+    "by TLC", "DESIGN.md section 4, C07")
+
+chk("C14", "model_checking",
+    "Spec level: TLC model-checks Decode(Encode(i)) = i for all 48 opcodes, every 1-byte operand value and "
+    "boundary / stratified 2-byte values (spec/MC_Bytecode.tla, 75 k states). Conformance: the harness pushes every "
+    "opcode x every operand tuple of its widths (17.4 M tuples) through the real make / read_operands; per-opcode "
+    "totals and a stratified sample are validated by TLC (spec/CodecTrace.tla) against Bytecode.Encode / Decode with "
+    "the width table measured from the real encoder. The VM side: instruction traces of random programs and loop "
+    "nests validated by spec/VMTrace.tla (each fetch is where the previous instruction, decoded with the encoder's "
+    "widths, leads). Limits: programs at limit-1 / limit / limit+1 for locals, call arguments, captured variables and "
+    "the constant pool (thorough: array elements, jump distance) must run correctly or be rejected.",
+    "Global-index and REPL-accumulated limits are not instantiated (quadratic compile time); they share the emit-time "
+    "check. A consistent change of a width in encoder, decoder and VM is model drift, not a violation.",
+    "TLA+ bytecode format model-checked by TLC; exhaustive operand sweep of the real codec and recorded VM traces "
+    "validated by TLC", "DESIGN.md section 4, C14")
+
+
 def main():
     props = [json.loads(l)["id"] for l in open(os.path.join(VERIF, "properties.jsonl"))]
     na = [{"property_id": p, "reason": NOT_APPLICABLE.get(p, "check not built yet in this round (planned, see DESIGN.md section 8)")}
